@@ -133,3 +133,74 @@ func TestReplayDeterministic(t *testing.T) {
 	}
 	t.Log(t1)
 }
+
+// lostUpdateBody: two phases (fork/join twice), each with a lost-update window.
+func twoPhaseBody(final *[2]int) func() {
+	return func() {
+		for ph := 0; ph < 2; ph++ {
+			var m vsync.Mutex
+			x := 0
+			var wg vsync.WaitGroup
+			wg.Add(2)
+			inc := func() {
+				defer wg.Done()
+				m.Lock()
+				v := x
+				m.Unlock()
+				m.Lock()
+				x = v + 1
+				m.Unlock()
+			}
+			sched.Go(inc)
+			sched.Go(inc)
+			wg.Wait()
+			final[ph] = x
+		}
+	}
+}
+
+// With AllDeviations, bound 0 is exactly the default schedule and the lost
+// update (which needs a switch away from a runnable goroutine) appears at a
+// small bound; the unbounded search and the bounded one agree on what exists.
+func TestAllDeviations(t *testing.T) {
+	var final [2]int
+	body := twoPhaseBody(&final)
+	check := func(e *sched.Exec) (string, []sched.Failure) { return fmt.Sprint(final), nil }
+	r0 := sched.Explore(body, check, sched.Options{MaxPreemptions: 0, AllDeviations: true})
+	if r0.Executions != 1 || r0.BoundCompleted != 0 {
+		t.Fatalf("bound 0 should be the default schedule alone: %+v", r0)
+	}
+	r1 := sched.Explore(body, check, sched.Options{MaxPreemptions: 1, AllDeviations: true})
+	full := sched.Explore(body, check, sched.Options{MaxPreemptions: -1})
+	t.Logf("bound1 %+v\nfull %+v", r1.Outcomes, full.Outcomes)
+	if !full.Unbounded || len(full.Outcomes) != 4 {
+		t.Fatalf("unbounded search should see all four outcomes: %+v", full.Outcomes)
+	}
+	for o := range r1.Outcomes {
+		if full.Outcomes[o] == 0 {
+			t.Fatalf("bounded search saw outcome %s the unbounded one did not", o)
+		}
+	}
+	if r1.Executions >= full.Executions+full.Pruned {
+		t.Fatalf("bound 1 should be smaller than the full search: %d vs %d", r1.Executions, full.Executions)
+	}
+}
+
+// SinglePhase explores each phase's interleavings with the other phase on the
+// default schedule: it sees the lost update in either phase but never in both.
+func TestSinglePhase(t *testing.T) {
+	var final [2]int
+	body := twoPhaseBody(&final)
+	check := func(e *sched.Exec) (string, []sched.Failure) { return fmt.Sprint(final), nil }
+	r := sched.Explore(body, check, sched.Options{MaxPreemptions: -1, SinglePhase: true})
+	t.Logf("%+v", r)
+	if r.Outcomes["[1 2]"] == 0 || r.Outcomes["[2 1]"] == 0 || r.Outcomes["[2 2]"] == 0 {
+		t.Fatalf("single-phase search should find the lost update in each phase: %+v", r.Outcomes)
+	}
+	if r.Outcomes["[1 1]"] != 0 {
+		t.Fatalf("deviations in two phases in one execution: %+v", r.Outcomes)
+	}
+	if r.PhaseCuts == 0 || r.Phases < 2 {
+		t.Fatalf("expected phase cuts to be counted: %+v", r)
+	}
+}
